@@ -48,6 +48,13 @@ def variant_maps(chk, F, rule, cfg):
                 ok = mentions(r, lambda x: x[0] == 'as' and x[2] == vin and strip(x[1]) in (('param', 0, 1), ('deref', ('param', 0, 1))))
                 chk.ob(rule, '%s: a failing inner conversion of the %s payload fails the whole value (no partial value)' % (fn.name, vin), ok, config=cfg, fn=fn, site='propagate:%s' % vin, what='propagation for %s' % vin, found=show(r)[:200])
                 continue
+            if r[0] == 'agg' and r[3] == 'Err' and not is_output and r[4]:
+                # explicit form of `?`: `Err(e) => Err(e)` with e the error of the inner conversion of this arm's payload
+                pay = strip(r[4][0][1])
+                ok = pay[0] == 'field' and strip(pay[1])[0] == 'as' and strip(pay[1])[2] == 'Err' and is_call(strip(strip(pay[1])[1]), r'IntoReturn(Once)?::into_return(_once)?$') and \
+                    mentions(pay, lambda x: x[0] == 'as' and x[2] == vin and strip(x[1]) in (('param', 0, 1), ('deref', ('param', 0, 1))))
+                chk.ob(rule, '%s: a failing inner conversion of the %s payload fails the whole value (no partial value)' % (fn.name, vin), ok, config=cfg, fn=fn, site='propagate:%s' % vin, what='propagation for %s' % vin, found=show(r)[:200])
+                continue
             if r[0] == 'agg' and r[3] == 'None' and is_output:
                 # kinds that cannot lend at all (&mut leaves)
                 ok = 'Mutable' in (fn.impl_of or {}).get('self_ty', '') or 'mut_lending' in fn.defp
